@@ -1315,7 +1315,10 @@ def oracle_sdb(run, ops, impl, prop):
                         skip = True
                 else:
                     if res != "ok":
-                        out.append(V("%s:bank-move-refused" % prop, {"line": i + 1, "op": op, "obs": ob[:200]}))
+                        # after a reverted frame that contained a precompile call the bank side no longer holds what the EVM view
+                        # shows (the pre-frame write was flushed, un-flushed by the revert, and is never flushed again)
+                        sig = "bank-view-stale-after-reverted-precompile-frame" if reverted_pre else "bank-move-refused"
+                        out.append(V("%s:%s" % (prop, sig), {"line": i + 1, "op": op, "obs": ob[:200]}))
                         skip = True
                         continue
                     # the bank holds whole unibi: the accounts the bank touched lose their sub-unibi remainder (by design)
